@@ -351,11 +351,90 @@ def setAt (c : Cfg α) (s : SV α) (i : Nat) (x : α) : M (SV α) :=
 /-- the elements `[begin(), end())` as values -/
 def contents (s : SV α) : M (List α) := readRange s.buf 0 s.size
 
-/-- `operator==`: `lhs.size() == rhs.size() && std::equal(...)` -/
-def svEq [DecidableEq α] (a b : SV α) : M Bool := do
+/-- `front()` / `front() const`: `begin()[0]` (calling it on an empty vector is undefined) -/
+def frontAt (s : SV α) : M α :=
+  if s.size = 0 then .error .precond else getAt s 0
+
+/-- `back()` / `back() const`: `end()[-1]` -/
+def backAt (s : SV α) : M α :=
+  if s.size = 0 then .error .precond else getAt s (s.size - 1)
+
+/-- `front() = x` through the non-const reference -/
+def setFront (c : Cfg α) (s : SV α) (x : α) : M (SV α) :=
+  if s.size = 0 then .error .precond else setAt c s 0 x
+
+/-- `back() = x` through the non-const reference -/
+def setBack (c : Cfg α) (s : SV α) (x : α) : M (SV α) :=
+  if s.size = 0 then .error .precond else setAt c s (s.size - 1) x
+
+/-- `data()[i]` (`data()` returns `data_`, the pointer `begin()` returns) -/
+def dataAt (s : SV α) (i : Nat) : M α := getAt s i
+
+/-- `data()[i] = x` / `*(begin() + i) = x` -/
+def setData (c : Cfg α) (s : SV α) (i : Nat) (x : α) : M (SV α) := setAt c s i x
+
+/-- one dereference of a pointer / iterator into the buffer -/
+def derefAt (buf : List (Slot α)) (i : Nat) : M α :=
+  match readRange buf i 1 with
+  | .ok [v] => .ok v
+  | .ok _ => .error .oob
+  | .error e => .error e
+
+/-- `for (it = begin() + i; it != end(); ++it) out.push_back(*it)` — iterators are pointers into
+    the buffer: `begin() = data_` (index 0), `end() = size_` (index `size`).  `fuel` bounds the
+    number of increments (the loop of the code has no bound: running out of fuel is `oob`). -/
+def iterGo (buf : List (Slot α)) (e : Nat) : Nat → Nat → M (List α)
+  | 0, it => if it = e then .ok [] else .error .oob
+  | f + 1, it =>
+    if it = e then .ok []
+    else match derefAt buf it with
+      | .error x => .error x
+      | .ok v => match iterGo buf e f (it + 1) with
+        | .error x => .error x
+        | .ok r => .ok (v :: r)
+
+/-- forward traversal `[begin(), end())` (also `cbegin()/cend()` and the const overloads) -/
+def iterFwd (s : SV α) : M (List α) := iterGo s.buf s.size s.size 0
+
+/-- `for (rit = rbegin(); rit != rend(); ++rit)`: `rbegin() = reverse_iterator(end())`,
+    `rend() = reverse_iterator(begin())`, `*rit = *(rit.base() - 1)`, `++rit` = `--base` -/
+def riterGo (buf : List (Slot α)) : Nat → Nat → M (List α)
+  | 0, base => if base = 0 then .ok [] else .error .oob
+  | f + 1, base =>
+    if base = 0 then .ok []
+    else match derefAt buf (base - 1) with
+      | .error x => .error x
+      | .ok v => match riterGo buf f (base - 1) with
+        | .error x => .error x
+        | .ok r => .ok (v :: r)
+
+def iterRev (s : SV α) : M (List α) := riterGo s.buf s.size s.size
+
+/-- `max_size()`: `static_cast<size_type>(-1)` with a 64-bit `size_type` -/
+def maxSize : Nat := 18446744073709551615
+
+/-- `capacity() >= std::max(S, size())` (the class invariant asserted by every constructor) -/
+def capOk (c : Cfg α) (s : SV α) : Bool := decide (c.S ≤ s.cap c) && decide (s.size ≤ s.cap c)
+
+/-! ### comparison: the element equality `eq` and the element order `lt` are PARAMETERS supplied by
+    the element type (`T::operator==`, `T::operator<`), never the structural equality of the
+    representation `α` (for `double`: `+0.0 == -0.0`, `NaN != NaN`; for a POD with padding or a
+    user-defined `operator==`: equal objects with different bytes). -/
+
+/-- `std::equal(b1, e1, b2)` on ranges of the same length -/
+def allEq (eq : α → α → Bool) : List α → List α → Bool
+  | [], _ => true
+  | _ :: _, [] => false
+  | a :: as, b :: bs => eq a b && allEq eq as bs
+
+/-- `std::vector`'s `==`: same size and element-wise `eq` -/
+def vecEq (eq : α → α → Bool) (la lb : List α) : Bool := la.length == lb.length && allEq eq la lb
+
+/-- `operator==`: `lhs.size() == rhs.size() && std::equal(begin(lhs), end(lhs), begin(rhs))` -/
+def svEq (eq : α → α → Bool) (a b : SV α) : M Bool := do
   let la ← contents a
   let lb ← contents b
-  pure (decide (la = lb))
+  pure (la.length == lb.length && allEq eq la lb)
 
 /-- `std::lexicographical_compare` with `lt` as the element order -/
 def lexLt (lt : α → α → Bool) : List α → List α → Bool
@@ -369,6 +448,40 @@ def svLt (lt : α → α → Bool) (a b : SV α) : M Bool := do
   let lb ← contents b
   pure (lexLt lt la lb)
 
+/-- the six relational operators small_vector.tcc declares -/
+inductive Cmp
+  | eq | ne | lt | gt | le | ge
+  deriving DecidableEq, Repr
+
+/-- the operators as small_vector.tcc defines them: `!=` is `!operator==(lhs, rhs)`, `>` is
+    `operator<(rhs, lhs)`, `>=` is `!operator<(lhs, rhs)`, `<=` is `!operator>(lhs, rhs)` -/
+def svCmp (eq lt : α → α → Bool) (k : Cmp) (a b : SV α) : M Bool :=
+  match k with
+  | .eq => svEq eq a b
+  | .ne => do let r ← svEq eq a b; pure (!r)
+  | .lt => svLt lt a b
+  | .gt => svLt lt b a
+  | .ge => do let r ← svLt lt a b; pure (!r)
+  | .le => do let r ← svLt lt b a; pure (!r)
+
+/-- the relational operators of `std::vector` ([container.requirements], C++17):
+    `a != b ≡ !(a == b)`, `a > b ≡ b < a`, `a <= b ≡ !(a > b)`, `a >= b ≡ !(a < b)` -/
+def vecCmp (eq lt : α → α → Bool) (k : Cmp) (la lb : List α) : Bool :=
+  match k with
+  | .eq => vecEq eq la lb
+  | .ne => !vecEq eq la lb
+  | .lt => lexLt lt la lb
+  | .gt => lexLt lt lb la
+  | .le => !lexLt lt lb la
+  | .ge => !lexLt lt la lb
+
+/-- `insert(i, b, e)` together with the iterator it returns (as an index): `append` returns
+    `end() - n`, the empty-range shortcut returns `i`, the two shifting strategies return the
+    re-validated `begin() + insert_index` -/
+def insertR (c : Cfg α) (s : SV α) (pos : Nat) (xs : List α) : M (SV α × Nat) := do
+  let s' ← insert c s pos xs
+  pure (s', if pos = s.size then s'.size - xs.length else pos)
+
 end
 
 /-! ### a machine with two vectors and the operation language of the property -/
@@ -380,12 +493,18 @@ inductive Op (α : Type)
   | clear | pushBack (x : Src α) | emplaceBack (x : Src α)
   | insert (pos : Nat) (xs : List α) | resize (n : Nat) | reserve (n : Nat)
   | setAt (i : Nat) (x : α) | getAt (i : Nat)
-  | cmpEq | cmpLt
+  | cmp (k : Cmp)                            -- `x k y` with the other register
+  /-- `x k t` (or `t k x` when `flip`) where `t` is a `small_vector<T, S2>` holding the elements
+      of the other register: the operators are templates over BOTH inline capacities -/
+  | cmpMixed (S2 : Nat) (k : Cmp) (flip : Bool)
+  | front | back | setFront (x : α) | setBack (x : α)
+  | dataAt (i : Nat) | setData (i : Nat) (x : α)
+  | iterFwd | iterRev
+  | empty | size | capOk | maxSize
 
 /-- what an operation lets the caller observe -/
 inductive Obs (α : Type)
-  | none | val (v : α) | bool (b : Bool)
-  deriving DecidableEq
+  | none | val (v : α) | bool (b : Bool) | nat (n : Nat) | list (l : List α)
 
 structure Mach (α : Type) where
   a : SV α
@@ -402,7 +521,7 @@ def Mach.init (c : Cfg α) : Mach α :=
     b := { loc := freshLoc c, heap := none, size := 0 } }
 
 /-- one operation on register `r` (binary operations take the other register as source) -/
-def step [DecidableEq α] (c : Cfg α) (lt : α → α → Bool) (m : Mach α) (r : Bool) (op : Op α) :
+def step (c : Cfg α) (eq lt : α → α → Bool) (m : Mach α) (r : Bool) (op : Op α) :
     M (Mach α × Obs α) := do
   let x := m.get r
   let y := m.get (!r)
@@ -418,20 +537,40 @@ def step [DecidableEq α] (c : Cfg α) (lt : α → α → Bool) (m : Mach α) (
   | .clear => let s ← clear c x; pure (m.put r s, .none)
   | .pushBack v => let s ← pushBack c x v; pure (m.put r s, .none)
   | .emplaceBack v => let s ← emplaceBack c x v; pure (m.put r s, .none)
-  | .insert pos xs => let s ← insert c x pos xs; pure (m.put r s, .none)
+  | .insert pos xs => let (s, i) ← insertR c x pos xs; pure (m.put r s, .nat i)
   | .resize n => let s ← resize c x n; pure (m.put r s, .none)
   | .reserve n => let s ← reserve c x n; pure (m.put r s, .none)
   | .setAt i v => let s ← setAt c x i v; pure (m.put r s, .none)
   | .getAt i => let v ← getAt x i; pure (m, .val v)
-  | .cmpEq => let b ← svEq x y; pure (m, .bool b)
-  | .cmpLt => let b ← svLt lt x y; pure (m, .bool b)
+  | .cmp k => let b ← svCmp eq lt k x y; pure (m, .bool b)
+  | .cmpMixed S2 k flip =>
+    -- small_vector<T, S2> t;  t.insert(t.end(), y.begin(), y.end());  x k t;  ~t
+    let c2 : Cfg α := { c with S := S2 }
+    let vals ← contents y
+    let t0 ← ctorN c2 0
+    let t ← insert c2 t0 0 vals
+    let b ← if flip then svCmp eq lt k t x else svCmp eq lt k x t
+    dtor c2 t
+    pure (m, .bool b)
+  | .front => let v ← frontAt x; pure (m, .val v)
+  | .back => let v ← backAt x; pure (m, .val v)
+  | .setFront v => let s ← setFront c x v; pure (m.put r s, .none)
+  | .setBack v => let s ← setBack c x v; pure (m.put r s, .none)
+  | .dataAt i => let v ← dataAt x i; pure (m, .val v)
+  | .setData i v => let s ← setData c x i v; pure (m.put r s, .none)
+  | .iterFwd => let l ← iterFwd x; pure (m, .list l)
+  | .iterRev => let l ← iterRev x; pure (m, .list l)
+  | .empty => pure (m, .bool (x.size == 0))              -- `end() == begin()`
+  | .size => pure (m, .nat x.size)                        -- `end() - begin()`
+  | .capOk => pure (m, .bool (capOk c x))
+  | .maxSize => pure (m, .nat maxSize)
 
-def run [DecidableEq α] (c : Cfg α) (lt : α → α → Bool) :
+def run (c : Cfg α) (eq lt : α → α → Bool) :
     Mach α → List (Bool × Op α) → M (Mach α × List (Obs α))
   | m, [] => pure (m, [])
   | m, (r, op) :: rest => do
-    let (m1, o) ← step c lt m r op
-    let (m2, os) ← run c lt m1 rest
+    let (m1, o) ← step c eq lt m r op
+    let (m2, os) ← run c eq lt m1 rest
     pure (m2, o :: os)
 
 /-- end of life of both vectors -/
